@@ -78,7 +78,10 @@ def deco_histories(r, names, vecs, tforms, ret_templates, argforms, k0, wide):
             if vecs[o] != vecs[name] and o not in cands:
                 cands.append(o)
         if not wide:
-            cands = [cands[k % len(cands)]] if r.random() < 0.6 else cands[:2]
+            # the Gaussian/SI counterpart always; otherwise one partner in rotation, sometimes a second one
+            first = cands[0] if name in em else cands[k % len(cands)]
+            rest = [c for c in cands if c != first]
+            cands = [first] + (rest[:1] if rest and r.random() < 0.4 else [])
         for bname in cands:
             for stated in ("A", "B"):
                 for order in ORDERS:
